@@ -64,6 +64,29 @@ def run(chk):
                        'of the declared classes: Output = Nat only if the result is never negative (sign abstraction; shared with C02/C26)')
     n3 = c26.sign_rules(chk, fx, 'C01-R3')
     chk.floor('declared numeric operator rows', n3, 20)
+    # ---- R4: the equality that decides whether two constants share a slot
+    from sa.kinds import casts as K4
+    chk.rule('C01-R4', 'two constants share a slot of the constant pool only if they are the same value: the equality used by the pool look-ups (PyCodeGenerator::same_const -> '
+                       '<ValueObj as PartialEq>::eq) compares numbers without a sign-changing or narrowing cast (-1 as u64 equals 2**64-1, 2**32-1 as i32 equals -1)')
+    VAL = 'crates/erg_compiler/ty/value.rs'
+    eqs = [f for f in fx.fns(VAL) if T.norm(f['path']) == 'ValueObj::eq']
+    sc = fx.fn('crates/erg_compiler/codegen.rs', 'PyCodeGenerator::same_const')
+    if chk.need(len(eqs) == 1 and sc is not None, 'ValueObj::eq / PyCodeGenerator::same_const not found'):
+        uses_eq = any(n.get('k') == 'Binary' and n.get('op') == '==' for n in T.walk(sc['body']))
+        chk.need(uses_eq, 'same_const no longer falls back to ValueObj equality')
+        ncast = 0
+        for fn_, types_, file_ in ((eqs[0], fx.file(VAL)['types'], VAL), (sc, fx.file('crates/erg_compiler/codegen.rs')['types'], 'crates/erg_compiler/codegen.rs')):
+            for n, frm, to, st, why in K4.audit(fn_, types_):
+                ncast += 1
+                if st == 'lossy':
+                    chk.bad('C01-R4', T.norm(fn_['path']), 'cast:%s' % T.show(n)[:24], '%s compares constants through `%s` (%s -> %s): two different numbers compare equal and share one '
+                            'constant-pool slot, so one of them is loaded as the other' % (T.norm(fn_['path']), T.show(n)[:40], frm, to), file_, n.get('l'))
+                else:
+                    chk.ok('C01-R4', (T.norm(fn_['path']), n.get('l')))
+        arms = [a for m in T.walk(eqs[0]['body']) if m.get('k') == 'Match' for a in m['arms']]
+        chk.floor('arms of ValueObj::eq', len(arms), 15)
+        if ncast == 0:
+            chk.ok('C01-R4', 'no-cast', sample='ValueObj::eq / same_const: no integer cast at all')
     return ('Integer-cast audit (typed HIR: source and target types of every `as`) over the marshalling writers, and a structural rule on the constant-pool predicate. '
             'Decides the clause "for every literal value, including naturals >= 2**31 and signed zeros"; operator/loop/function semantics of emitted code are run-time facts and are not decided.'), {}
 
